@@ -98,6 +98,14 @@ func (sw *streamWrapper) handleResponses() {
 			slog.Any("err", err),
 		)
 
+		if len(sw.pendingRequests) == 0 {
+			// The stream was closed meanwhile: handleStreamClosed has already failed
+			// (and dropped) every pending request, this response has no taker anymore
+			sw.failed.Store(true)
+			sw.Unlock()
+			return
+		}
+
 		var f concurrent.Future[*proto.WriteResponse]
 		f, sw.pendingRequests = sw.pendingRequests[0], sw.pendingRequests[1:]
 		sw.Unlock()
